@@ -105,24 +105,71 @@ func errorDiscipline(c *Ctx, r *Report, rule string, pkgs ...string) {
 				}
 				// (a)
 				if returnsErr {
-					at, dropped := reachesAvoidingFrom(f, nonNil.Instrs[0], func(z ssa.Instruction) bool {
-						rt, isR := z.(*ssa.Return)
-						if !isR {
-							return false
+					// a comparison with a sentinel is a look at the error only on its equal side: on the other side the error is still
+					// some failure nobody has dealt with
+					type sEdge struct {
+						b  *ssa.BasicBlock
+						sd int
+					}
+					eqEdge := map[sEdge]bool{}
+					isCmpOfE := map[ssa.Instruction]bool{b: true, ifi: true}
+					for _, j := range allIfs(f) {
+						jb, isJB := j.Cond.(*ssa.BinOp)
+						if !isJB || (jb.Op != token.NEQ && jb.Op != token.EQL) || len(j.Block().Succs) != 2 {
+							continue
 						}
-						rr := resolved[rt]
-						return len(rr) > 0 && !definitelyAnError(rr[len(rr)-1]) && !usesE(z) && strip(rr[len(rr)-1]) != e
-					}, func(z ssa.Instruction) bool {
-						if z == ssa.Instruction(b) || z == ssa.Instruction(ifi) {
-							return false
+						var oth ssa.Value
+						if strip(jb.X) == e {
+							oth = jb.Y
+						} else if strip(jb.Y) == e {
+							oth = jb.X
+						} else {
+							continue
 						}
-						return usesE(z) || instrNoReturn(z)
-					})
+						isCmpOfE[jb] = true
+						isCmpOfE[j] = true
+						if !isNilConst(oth) {
+							sd := 0
+							if jb.Op == token.NEQ {
+								sd = 1
+							}
+							eqEdge[sEdge{j.Block(), sd}] = true
+						}
+					}
+					var at ssa.Instruction
+					dropped := false
+					seenB := map[*ssa.BasicBlock]bool{}
+					var walk func(bb *ssa.BasicBlock)
+					walk = func(bb *ssa.BasicBlock) {
+						if dropped || seenB[bb] {
+							return
+						}
+						seenB[bb] = true
+						for _, z := range bb.Instrs {
+							if rt, isR := z.(*ssa.Return); isR {
+								rr := resolved[rt]
+								if len(rr) > 0 && !definitelyAnError(rr[len(rr)-1]) && !usesE(z) && strip(rr[len(rr)-1]) != e {
+									dropped, at = true, z
+								}
+								return
+							}
+							if instrNoReturn(z) || (!isCmpOfE[z] && usesE(z)) {
+								return
+							}
+						}
+						for sd, sb := range bb.Succs {
+							if eqEdge[sEdge{bb, sd}] {
+								continue
+							}
+							walk(sb)
+						}
+					}
+					walk(nonNil)
 					key := fmt.Sprintf("err-dropped#%d", k)
 					if dropped {
 						r.Bad(rule, fnName(f), key, c.InstrPos(cl), "the error of "+callee+" is known non-nil here and a path reaches the return at "+c.InstrPos(at)+" without having looked at it and without returning an error of its own: the failure is reported as whatever the rest of the function makes of it")
 					} else {
-						r.OK(rule, fnName(f), key, c.InstrPos(cl), "on the non-nil side of its test the error of "+callee+" is looked at (returned, passed on, compared) or replaced by a sentinel before any return")
+						r.OK(rule, fnName(f), key, c.InstrPos(cl), "on the non-nil side of its test the error of "+callee+" is returned, passed on, recognised as a sentinel, or replaced by an error of the function's own before any return")
 					}
 				}
 				// (b)
@@ -317,6 +364,29 @@ func round8(c *Ctx, r *Report, prop string) {
 		emptyGuards(c, r, "C06.R20", "storage/wal")
 		iteratorTypestate(c, r, "C06.R20", "storage/wal")
 		foundEntryChecks(c, r, "C06.R20")
+	case "C02":
+		r.Rule("C02.R10", "the store reports presence and absence differently: one side of every presence test returns nil, the other a sentinel error", 3)
+		presenceTestsDistinguish(c, r, "C02.R10")
+	case "C12":
+		r.Rule("C12.R15", "no request can make the index spin: every way round a loop that runs while a queue is non-empty pops that queue", 3)
+		frontierLoopsMakeProgress(c, r, "C12.R15", "index")
+		r.Rule("C12.R16", "over-long metadata is refused before it is proposed: the validator refuses everything the snapshot writer refuses", 1)
+		validatorAgreesWithWriter(c, r, "C12.R16")
+	case "C19":
+		r.Rule("C19.R8", "a queue's copy holds the items: a slice made with the length of another slice is filled before the function returns", 2)
+		sizedCopiesAreFilled(c, r, "C19.R8", "utils")
+		r.Rule("C19.R9", "Pop and Peek refuse only the empty queue", 1)
+		panicsOnlyWhenEmpty(c, r, "C19.R9", "utils")
+	case "C18":
+		r.Rule("C18.R12", "every unlock releases a mutex the function holds, in the matching mode (the control plane does not die on `unlock of unlocked mutex`)", 1)
+		unlocksAreOfHeldLocks(c, r, "C18.R12", "cluster", "storage", "storage/raft", "utils")
+	case "C09":
+		r.Rule("C09.R10", "the fan-out protocol: workers are registered with the WaitGroup before they start and sign off on every path; the goroutine that closes the result channel waits for the group first", 4)
+		waitGroupProtocol(c, r, "C09.R10", "storage")
+	case "C17":
+		r.Rule("C17.R13", "the fan-out protocol of the size lookups (as C09.R10); the node-membership tests answer true on equality", 2)
+		waitGroupProtocol(c, r, "C17.R13", "storage")
+		membershipPredicates(c, r, "C17.R13", "storage")
 	case "C07":
 		r.Rule("C07.R13", "a new vertex that is higher than the entry point becomes the entry point (the upper layers stay in use)", 1)
 		entryPointPromotion(c, r, "C07.R13")
@@ -325,17 +395,27 @@ func round8(c *Ctx, r *Report, prop string) {
 		levelLoopsThatEditLinksReachZero(c, r, "C13.R11")
 		r.Rule("C13.R12", "every call of the pruner is handed the degree bound of the level it names (the per-level degree bound is one of the structural invariants)", 2)
 		prunerBudgetsPerLevel(c, r, "C13.R12")
+		r.Rule("C13.R13", "every unlock of the index releases a mutex the function holds, in the matching mode", 1)
+		unlocksAreOfHeldLocks(c, r, "C13.R13", "index")
 	case "C08":
 		r.Rule("C08.R12", "the index never turns a failed read or write of a snapshot into success: an error known non-nil is looked at before any return that does not carry an error, results of a failed call are not used, and when a callee succeeds the caller can", 10)
 		errorDiscipline(c, r, "C08.R12", "index")
+		r.Rule("C08.R14", "every metadata the API accepts can be saved: the validator refuses everything the snapshot writer refuses", 1)
+		validatorAgreesWithWriter(c, r, "C08.R14")
 		r.Rule("C08.R13", "nil tests and empty-collection guards of the index are the right way round", 1)
 		nilContradictions(c, r, "C08.R13", "index")
 	case "C11":
 		r.Rule("C11.R12", "the API layer never turns a failure into success: an error known non-nil is looked at before any return that does not carry an error, results of a failed call are not used, and when a callee succeeds the caller can", 10)
 		errorDiscipline(c, r, "C11.R12", "services", "cluster", "storage")
+		r.Rule("C11.R15", "every applied proposal delivers its outcome: an apply function notifies under the id it was handed on every path that returns nil", 6)
+		applyFunctionsAlwaysNotify(c, r, "C11.R15")
+		r.Rule("C11.R14", "a write path returns success only behind a raft proposal or a forwarded call", 6)
+		successOnlyAfterTheEffect(c, r, "C11.R14")
 		r.Rule("C11.R13", "nil tests of the API and storage layers are the right way round", 1)
 		nilContradictions(c, r, "C11.R13", "services", "cluster", "storage")
 	case "C03":
+		r.Rule("C03.R17", "in the Ready loop the apply callbacks' errors are fatal, the normal-entry callback sees only normal entries with a payload, and raft's clock runs", 1)
+		applyCallbacksInTheReadyLoop(c, r, "C03.R17")
 		r.Rule("C03.R16", "nil tests and empty-collection guards of the raft glue are the right way round", 1)
 		nilContradictions(c, r, "C03.R16", "storage/raft")
 		emptyGuards(c, r, "C03.R16", "storage/raft", "storage")
@@ -391,7 +471,32 @@ func nilContradictions(c *Ctx, r *Report, rule string, pkgs ...string) {
 				r.OKTrivial(rule, fnName(f), fmt.Sprintf("nil-side#%d", k), c.InstrPos(ifi), "the side where the pointer is nil joins other paths at once; nothing is dereferenced under that knowledge")
 				continue
 			}
-			same := func(v ssa.Value) bool { return v != nil && canon(v) == p }
+			var sameExpr func(a, b ssa.Value, d int) bool
+			sameExpr = func(a, b ssa.Value, d int) bool {
+				if a == b {
+					return true
+				}
+				if d > 3 {
+					return false
+				}
+				// the same field of the same struct value, read twice (go/ssa does not share the two reads)
+				fa, ok1 := a.(*ssa.Field)
+				fb, ok2 := b.(*ssa.Field)
+				if ok1 && ok2 && fa.Field == fb.Field {
+					return sameExpr(fa.X, fb.X, d+1)
+				}
+				la, okA := loadOf(a)
+				lb, okB := loadOf(b)
+				if okA && okB {
+					xa, isA := la.(*ssa.FieldAddr)
+					xb, isB := lb.(*ssa.FieldAddr)
+					if isA && isB && xa.Field == xb.Field {
+						return sameExpr(xa.X, xb.X, d+1)
+					}
+				}
+				return false
+			}
+			same := func(v ssa.Value) bool { return v != nil && sameExpr(canon(v), p, 0) }
 			derefIn := func(g *ssa.Function, is func(ssa.Value) bool, within func(*ssa.BasicBlock) bool) string {
 				where := ""
 				eachInstr(g, func(z ssa.Instruction) {
@@ -647,12 +752,28 @@ func iteratorTypestate(c *Ctx, r *Report, rule string, pkgs ...string) {
 				return
 			}
 			id := callID(&cl.Call)
-			if id.Name != "NewIterator" || !strings.Contains(id.Pkg, "badger") {
+			isNew := id.Name == "NewIterator" && strings.Contains(id.Pkg, "badger")
+			// a factory of the module that hands an iterator to its caller is a source too
+			if g := cl.Call.StaticCallee(); g != nil && modLocal(g) && g.Signature.Results().Len() == 1 && typeName(derefType(g.Signature.Results().At(0).Type())) == "Iterator" {
+				isNew = true
+			}
+			if !isNew {
 				return
+			}
+			it := ssa.Value(cl)
+			handedOn := false
+			for _, rt := range returnsOf(f) {
+				for _, rv := range rt.Results {
+					if through(rv) == it {
+						handedOn = true
+					}
+				}
+			}
+			if handedOn {
+				return // the caller owns it: judged there
 			}
 			n++
 			k++
-			it := ssa.Value(cl)
 			_, unclosed := reachesAvoiding(f, cl, func(z ssa.Instruction) bool { _, isR := z.(*ssa.Return); return isR }, func(z ssa.Instruction) bool { return onIt(z, it, "Close") || instrNoReturn(z) })
 			r.Check(!unclosed, rule, fnName(f), fmt.Sprintf("iterator-closed#%d", k), c.InstrPos(cl), "the iterator is closed (or its Close deferred) on every path from NewIterator to a return: Badger panics when a transaction is discarded with an iterator still open")
 			_, unpositioned := reachesAvoiding(f, cl, func(z ssa.Instruction) bool { return onIt(z, it, "Valid", "Item", "Next", "ValidForPrefix") }, func(z ssa.Instruction) bool { return onIt(z, it, "Seek", "Rewind") })
@@ -1001,5 +1122,1277 @@ func prunerBudgetsPerLevel(c *Ctx, r *Report, rule string) {
 	}
 	if n == 0 {
 		r.Unk(rule, "index", "pruner-budget", "-", "no call of the pruner found")
+	}
+}
+
+// unlocksAreOfHeldLocks: every Unlock / RUnlock — called or deferred — is of a mutex that the function holds at that point on
+// every path, in the matching mode (Unlock for Lock, RUnlock for RLock). Unlocking a mutex that is not locked is a fatal runtime
+// error, not a panic: the process dies.
+func unlocksAreOfHeldLocks(c *Ctx, r *Report, rule string, pkgs ...string) {
+	n, bad := 0, 0
+	for _, f := range prodFuncs(c, pkgs...) {
+		li := analyzeLocks(f)
+		eachInstr(f, func(i ssa.Instruction) {
+			var cc *ssa.CallCommon
+			switch x := i.(type) {
+			case *ssa.Call:
+				cc = &x.Call
+			case *ssa.Defer:
+				cc = &x.Call
+			}
+			if cc == nil {
+				return
+			}
+			op, mu := mutexOp(cc)
+			if op != "Unlock" && op != "RUnlock" {
+				return
+			}
+			n++
+			p := path(mu)
+			want := byte('W')
+			if op == "RUnlock" {
+				want = 'R'
+			}
+			held, ok := li.before[i].must[p]
+			if _, isDefer := i.(*ssa.Defer); isDefer {
+				// a deferred unlock runs at the exits: the lock must be held at every return the defer can reach (the code base
+				// writes `defer mu.Unlock()` in front of `mu.Lock()` as often as behind it)
+				ok, held = true, want
+				for _, b := range f.Blocks {
+					if len(b.Instrs) == 0 || b == f.Recover {
+						continue
+					}
+					rt, isR := b.Instrs[len(b.Instrs)-1].(*ssa.Return)
+					if !isR {
+						continue
+					}
+					if _, reach := reachesAvoiding(f, i, func(z ssa.Instruction) bool { return z == ssa.Instruction(rt) }, func(ssa.Instruction) bool { return false }); !reach {
+						continue
+					}
+					h, has := li.before[rt].must[p]
+					if !has {
+						ok = false
+					} else if h != want {
+						held = h
+					}
+				}
+			}
+			if !ok || held != want {
+				bad++
+				what := "is not held on every path that reaches this point"
+				if ok {
+					what = "is held in the other mode (" + string(held) + ")"
+				}
+				r.Bad(rule, fnName(f), "unlock-of-"+p+"#"+c.InstrPos(i), c.InstrPos(i), op+" of "+p+", which "+what+": unlocking an unlocked mutex is a fatal runtime error")
+			}
+		})
+	}
+	if n == 0 {
+		r.Unk(rule, strings.Join(pkgs, ","), "unlocks", "-", "no unlock found")
+		return
+	}
+	if bad == 0 {
+		r.OK(rule, strings.Join(pkgs, ","), "unlocks-held", "-", fmt.Sprintf("%d unlock sites; each releases a mutex the function holds there, in the matching mode", n))
+	}
+}
+
+// sizedCopiesAreFilled: a slice that is made with the length of another slice (the shape of "copy this") receives elements before the function
+// returns: a copy into it on every path from the make to a return, or an element-wise loop. A queue that is reversed into an array of the
+// right length and nothing else holds nil items.
+func sizedCopiesAreFilled(c *Ctx, r *Report, rule string, pkgs ...string) {
+	n := 0
+	for _, f := range prodFuncs(c, pkgs...) {
+		k := 0
+		eachInstr(f, func(i ssa.Instruction) {
+			mk, ok := i.(*ssa.MakeSlice)
+			if !ok {
+				return
+			}
+			lc, isC := strip(mk.Len).(*ssa.Call)
+			if !isC {
+				return
+			}
+			bi, isB := lc.Call.Value.(*ssa.Builtin)
+			if !isB || bi.Name() != "len" || len(lc.Call.Args) != 1 {
+				return
+			}
+			if _, isS := lc.Call.Args[0].Type().Underlying().(*types.Slice); !isS {
+				return
+			}
+			n++
+			k++
+			derives := func(v ssa.Value) bool {
+				for d := 0; d < 6 && v != nil; d++ {
+					v = strip(v)
+					if v == ssa.Value(mk) {
+						return true
+					}
+					switch x := v.(type) {
+					case *ssa.Slice:
+						v = x.X
+					case *ssa.UnOp:
+						// a load of the cell the fresh slice was stored in
+						if al, isAl := x.X.(*ssa.Alloc); isAl && x.Op == token.MUL {
+							st := storesTo(f, al)
+							if len(st) == 1 {
+								v = st[0].Val
+								continue
+							}
+						}
+						return false
+					default:
+						return false
+					}
+				}
+				return false
+			}
+			fills := func(z ssa.Instruction) bool {
+				if cl, isCl := z.(*ssa.Call); isCl {
+					if b2, isB2 := cl.Call.Value.(*ssa.Builtin); isB2 && b2.Name() == "copy" && len(cl.Call.Args) == 2 && derives(cl.Call.Args[0]) {
+						return true
+					}
+				}
+				if st, isSt := z.(*ssa.Store); isSt {
+					if ia, isIA := st.Addr.(*ssa.IndexAddr); isIA && derives(ia.X) {
+						return true
+					}
+				}
+				return false
+			}
+			// a copy must lie on every path to a return; an element-wise loop only has to exist (its zero-trip path is the empty case)
+			_, hasFill := reachesAvoiding(f, mk, fills, func(z ssa.Instruction) bool { return false })
+			loopFill := false
+			eachInstr(f, func(z ssa.Instruction) {
+				if _, isSt := z.(*ssa.Store); isSt && fills(z) && inCycle(f, z) {
+					loopFill = true
+				}
+			})
+			unfilled := !hasFill
+			if hasFill && !loopFill {
+				_, unfilled = reachesAvoiding(f, mk, func(z ssa.Instruction) bool { _, isR := z.(*ssa.Return); return isR }, func(z ssa.Instruction) bool { return fills(z) || instrNoReturn(z) })
+			}
+			r.Check(!unfilled, rule, fnName(f), fmt.Sprintf("sized-copy-filled#%d", k), c.InstrPos(mk), "a slice made with the length of another slice receives elements (a copy on every path to a return, or an element-wise loop) before the function returns")
+		})
+	}
+	if n == 0 {
+		r.Unk(rule, strings.Join(pkgs, ","), "sized-copies", "-", "no slice made with the length of another slice found")
+	}
+}
+
+// panicsOnlyWhenEmpty: a test that tells the empty collection from a non-empty one (its length against 0 or 1) and has a side
+// that panics takes that side only for the empty collection: the guard of Pop / Peek must not refuse a queue that has items.
+func panicsOnlyWhenEmpty(c *Ctx, r *Report, rule string, pkgs ...string) {
+	n := 0
+	for _, f := range prodFuncs(c, pkgs...) {
+		k := 0
+		for _, ifi := range allIfs(f) {
+			cm, ok := resolveCmp(ifi.Cond, 0)
+			if !ok || len(ifi.Block().Succs) != 2 {
+				// equality tests are not "comparisons" for resolveCmp's callers: read them here
+				b, isB := ifi.Cond.(*ssa.BinOp)
+				if !isB || (b.Op != token.EQL && b.Op != token.NEQ) || len(ifi.Block().Succs) != 2 {
+					continue
+				}
+				cm = ccmp{b.Op, mkSide(b.X), mkSide(b.Y)}
+			}
+			op := cm.op
+			var kc int64
+			switch {
+			case cm.x.isLen && !cm.y.isLen:
+				v, isK := constInt(cm.y.v)
+				if !isK {
+					continue
+				}
+				kc = v
+			case cm.y.isLen && !cm.x.isLen:
+				v, isK := constInt(cm.x.v)
+				if !isK {
+					continue
+				}
+				kc, op = v, flipCmp(op)
+			default:
+				continue
+			}
+			if kc > 1 {
+				continue
+			}
+			panicSide := -1
+			for sd, sb := range ifi.Block().Succs {
+				if len(sb.Preds) == 1 && blockNeverReturns(sb) {
+					panicSide = sd
+				}
+			}
+			if panicSide < 0 {
+				continue
+			}
+			holds := func(l int64) bool {
+				switch op {
+				case token.EQL:
+					return l == kc
+				case token.NEQ:
+					return l != kc
+				case token.LSS:
+					return l < kc
+				case token.LEQ:
+					return l <= kc
+				case token.GTR:
+					return l > kc
+				case token.GEQ:
+					return l >= kc
+				}
+				return false
+			}
+			side := func(l int64) int {
+				if holds(l) {
+					return 0
+				}
+				return 1
+			}
+			n++
+			k++
+			r.Check(side(0) == panicSide && side(2) != panicSide, rule, fnName(f), fmt.Sprintf("panic-guard#%d", k), c.InstrPos(ifi), "the panicking side of this emptiness test is taken for the empty collection and not for one that has items")
+		}
+	}
+	if n == 0 {
+		r.Unk(rule, strings.Join(pkgs, ","), "panic-guards", "-", "no emptiness test with a panicking side found")
+	}
+}
+
+// applyCallbacksInTheReadyLoop: in the function that receives raft's Ready values, (1) the error of every apply callback (a call
+// through a function-typed field) is fatal: on its non-nil side every path ends in a call that does not return; (2) the callback
+// for normal entries is reached only for entries whose type is EntryNormal and whose payload is non-empty (raft's own empty
+// entries after an election must not reach the state machine), judged on the path conditions inside the loop body; (3) raft's
+// clock runs: the loop calls Node.Tick.
+func applyCallbacksInTheReadyLoop(c *Ctx, r *Report, rule string) {
+	n := 0
+	for _, root := range prodFuncs(c, "storage/raft") {
+		if root.Parent() != nil {
+			continue
+		}
+		hasReady := false
+		eachInstr(root, func(i ssa.Instruction) {
+			if cc := asCall(i); cc != nil && cc.IsInvoke() && strings.HasSuffix(typeName(cc.Value.Type()), "Node") && cc.Method.Name() == "Ready" {
+				hasReady = true
+			}
+		})
+		if !hasReady {
+			continue
+		}
+		// the loop function and the helpers of its package it hands the work to (three levels)
+		scope := []*ssa.Function{root}
+		inScope := map[*ssa.Function]bool{root: true}
+		for d, frontier := 0, []*ssa.Function{root}; d < 3 && len(frontier) > 0; d++ {
+			var next []*ssa.Function
+			for _, g := range frontier {
+				eachInstr(g, func(z ssa.Instruction) {
+					if cc := asCall(z); cc != nil {
+						if h := cc.StaticCallee(); h != nil && h.Pkg == root.Pkg && !inScope[h] && len(h.Blocks) > 0 {
+							inScope[h] = true
+							scope = append(scope, h)
+							next = append(next, h)
+						}
+					}
+				})
+			}
+			frontier = next
+		}
+		hasTick := false
+		for _, g := range scope {
+			eachInstr(g, func(z ssa.Instruction) {
+				if cc := asCall(z); cc != nil && cc.IsInvoke() && strings.HasSuffix(typeName(cc.Value.Type()), "Node") && cc.Method.Name() == "Tick" {
+					hasTick = true
+				}
+			})
+		}
+		n++
+		r.Check(hasTick, rule, fnName(root), "clock-runs", c.Pos(root.Pos()), "the loop that receives Ready values (or a helper it calls) also calls Node.Tick (without ticks there are no elections and no heartbeats)")
+		k := 0
+		for _, f := range scope {
+			eachInstr(f, func(i ssa.Instruction) {
+				cl, ok := i.(*ssa.Call)
+				if !ok || cl.Call.IsInvoke() || cl.Call.StaticCallee() != nil {
+					return
+				}
+				// a call through a function-typed field
+				l, isL := loadOf(strip(cl.Call.Value))
+				if !isL {
+					return
+				}
+				fa, isF := l.(*ssa.FieldAddr)
+				if !isF {
+					return
+				}
+				if _, isSig := cl.Call.Value.Type().Underlying().(*types.Signature); !isSig {
+					return
+				}
+				rs := cl.Call.Signature().Results()
+				if rs.Len() != 1 || !isErrorType(rs.At(0).Type()) {
+					return
+				}
+				fld := structField(fa.X.Type(), fa.Field)
+				k++
+				name := "callback"
+				if fld != nil {
+					name = fld.Name()
+				}
+				// (1) fatal on error
+				fatal, tested := true, false
+				for _, ifi := range allIfs(f) {
+					b, isB := ifi.Cond.(*ssa.BinOp)
+					if !isB || (b.Op != token.NEQ && b.Op != token.EQL) {
+						continue
+					}
+					if !((strip(b.X) == ssa.Value(cl) && isNilConst(b.Y)) || (strip(b.Y) == ssa.Value(cl) && isNilConst(b.X))) {
+						continue
+					}
+					tested = true
+					nonNil := succOn(ifi, b.Op == token.NEQ)
+					if len(nonNil.Instrs) == 0 {
+						fatal = false
+						continue
+					}
+					if _, goesOn := reachesAvoidingFrom(f, nonNil.Instrs[0], func(z ssa.Instruction) bool {
+						return z.Block() != nil && !nonNil.Dominates(z.Block())
+					}, func(z ssa.Instruction) bool { return instrNoReturn(z) }); goesOn || len(nonNil.Preds) != 1 {
+						fatal = false
+					}
+				}
+				r.Check(tested && fatal, rule, fnName(f), fmt.Sprintf("apply-error-fatal#%d(%s)", k, name), c.InstrPos(cl), "the error of the apply callback is tested and its non-nil side ends in a call that does not return: a replica that failed to apply an entry must not go on to the next one")
+				// (2) path conditions inside the loop body
+				if !inCycle(f, cl) || len(cl.Call.Args) != 1 {
+					return
+				}
+				e := &condEngine{budget: 4000}
+				isEntryField := func(v ssa.Value, field string) bool {
+					v = strip(v)
+					if l, ok := loadOf(v); ok {
+						if fa, ok := l.(*ssa.FieldAddr); ok {
+							fv := structField(fa.X.Type(), fa.Field)
+							return fv != nil && fv.Name() == field && typeName(derefType(fa.X.Type())) == "Entry"
+						}
+					}
+					if fl, ok := v.(*ssa.Field); ok {
+						fv := structField(fl.X.Type(), fl.Field)
+						return fv != nil && fv.Name() == field && typeName(fl.X.Type()) == "Entry"
+					}
+					return false
+				}
+				e.atomKey = func(v ssa.Value) (string, bool, bool) {
+					x, ok := v.(*ssa.BinOp)
+					if !ok {
+						return "", false, false
+					}
+					if x.Op == token.EQL || x.Op == token.NEQ {
+						for _, pr := range [][2]ssa.Value{{x.X, x.Y}, {x.Y, x.X}} {
+							if kv, isK := constInt(pr[1]); isK && isEntryField(pr[0], "Type") {
+								return fmt.Sprintf("entry-type=%d", kv), x.Op == token.NEQ, true
+							}
+						}
+					}
+					for _, pr := range [][2]ssa.Value{{x.X, x.Y}, {x.Y, x.X}} {
+						lc, isC := strip(pr[0]).(*ssa.Call)
+						if !isC {
+							continue
+						}
+						if bi, isB := lc.Call.Value.(*ssa.Builtin); !isB || bi.Name() != "len" || !isEntryField(lc.Call.Args[0], "Data") {
+							continue
+						}
+						kv, isK := constInt(pr[1])
+						if !isK {
+							continue
+						}
+						op := x.Op
+						if pr[0] == x.Y {
+							op = flipCmp(op)
+						}
+						holds := func(l int64) bool {
+							switch op {
+							case token.EQL:
+								return l == kv
+							case token.NEQ:
+								return l != kv
+							case token.LSS:
+								return l < kv
+							case token.LEQ:
+								return l <= kv
+							case token.GTR:
+								return l > kv
+							case token.GEQ:
+								return l >= kv
+							}
+							return false
+						}
+						if !holds(0) && holds(1) && holds(1000) {
+							return "payload-nonempty", false, true
+						}
+						if holds(0) && !holds(1) && !holds(1000) {
+							return "payload-nonempty", true, true
+						}
+					}
+					return "", false, false
+				}
+				// is the argument an entry's payload? then this is the normal-entry callback
+				if !isEntryField(cl.Call.Args[0], "Data") {
+					return
+				}
+				hdr, _ := naturalLoopOf(cl.Block())
+				if hdr == nil {
+					return
+				}
+				paths := e.pathsFrom(f, hdr, cl.Block(), 0)
+				if e.failed || len(paths) == 0 {
+					r.Infof("%s: the conditions under which %s reaches the normal-entry callback could not be enumerated", rule, fnName(f))
+					return
+				}
+				bad := ""
+				for _, p := range paths {
+					tn, hasT := p.asg["entry-type=0"]
+					pn, hasP := p.asg["payload-nonempty"]
+					if !(hasT && tn) {
+						bad = fmt.Sprintf("a way in does not have entry type == EntryNormal (tested: %v, value %v)", hasT, tn)
+					} else if !(hasP && pn) {
+						bad = fmt.Sprintf("a way in does not have a non-empty payload (tested: %v, value %v)", hasP, pn)
+					}
+				}
+				r.Check(bad == "", rule, fnName(f), fmt.Sprintf("normal-entries-only#%d", k), c.InstrPos(cl), fmt.Sprintf("every way from the top of the entry loop to the normal-entry callback (%d enumerated) has type == EntryNormal and a non-empty payload; %s", len(paths), bad))
+			})
+		}
+	}
+	if n == 0 {
+		r.Unk(rule, "storage/raft", "ready-loop", "-", "no function receiving Ready values found")
+	}
+}
+
+// presenceTestsDistinguish: a function of the index that looks an id up in a shard of the vertex store (comma-ok lookup in a map
+// of vertices) and returns an error reports the two outcomes differently: the returns on one side of the presence test carry a
+// nil error, those on the other side a sentinel. (`already exists` and `not found` are the index's whole error vocabulary: a side
+// that answers nil on both is a lost error.)
+func presenceTestsDistinguish(c *Ctx, r *Report, rule string) {
+	x := newIdx(c)
+	if len(x.missing) > 0 {
+		r.Unk(rule, "index", "anchors", "-", "index anchors missing")
+		return
+	}
+	presenceTestsDistinguishIn(c, r, rule, x.funcs, func(t types.Type) bool { return namedOf(derefType(t)) == x.vertex })
+}
+
+// the same for any keyed registry (groups by id, addresses by node id, datasets by id): a lookup that finds nothing must not
+// answer like one that found something.
+func registryLookupsDistinguish(c *Ctx, r *Report, rule string, pkgs ...string) {
+	presenceTestsDistinguishIn(c, r, rule, prodFuncs(c, pkgs...), func(types.Type) bool { return true })
+}
+
+func presenceTestsDistinguishIn(c *Ctx, r *Report, rule string, funcs []*ssa.Function, elemOK func(types.Type) bool) {
+	n := 0
+	for _, f := range funcs {
+		res := f.Signature.Results()
+		if res.Len() == 0 || !isErrorType(res.At(res.Len()-1).Type()) {
+			continue
+		}
+		resolved := map[*ssa.Return][]ssa.Value{}
+		for _, rt := range returnsOf(f) {
+			resolved[rt.Return] = rt.Results
+		}
+		k := 0
+		for _, ifi := range allIfs(f) {
+			ex, ok := ifi.Cond.(*ssa.Extract)
+			if !ok || ex.Index != 1 || len(ifi.Block().Succs) != 2 {
+				continue
+			}
+			lk, isL := ex.Tuple.(*ssa.Lookup)
+			if !isL || !lk.CommaOk {
+				continue
+			}
+			m, isM := lk.X.Type().Underlying().(*types.Map)
+			if !isM || !elemOK(m.Elem()) {
+				continue
+			}
+			n++
+			k++
+			// what the returns dominated by each side say
+			kind := func(side *ssa.BasicBlock) (nils, errs int) {
+				for _, b := range f.Blocks {
+					if len(b.Instrs) == 0 || !side.Dominates(b) {
+						continue
+					}
+					if rt, isR := b.Instrs[len(b.Instrs)-1].(*ssa.Return); isR {
+						rr := resolved[rt]
+						if len(rr) == 0 {
+							continue
+						}
+						if isNilConst(rr[len(rr)-1]) {
+							nils++
+						} else if definitelyAnError(rr[len(rr)-1]) {
+							errs++
+						}
+					}
+				}
+				return
+			}
+			s0, s1 := ifi.Block().Succs[0], ifi.Block().Succs[1]
+			if len(s0.Preds) != 1 || len(s1.Preds) != 1 {
+				// one side is the shared fall-through: judge it by the returns it reaches directly
+				r.OKTrivial(rule, fnName(f), fmt.Sprintf("presence-test#%d", k), c.InstrPos(ifi), "one side of the presence test joins other paths; not judged")
+				continue
+			}
+			n0, e0 := kind(s0)
+			n1, e1 := kind(s1)
+			okD := (n0 > 0 && e0 == 0 && e1 > 0 && n1 == 0) || (n1 > 0 && e1 == 0 && e0 > 0 && n0 == 0)
+			r.Check(okD, rule, fnName(f), fmt.Sprintf("presence-test#%d", k), c.InstrPos(ifi), fmt.Sprintf("one side of the presence test returns nil errors only and the other sentinel errors only (present side: %d nil / %d sentinel; absent side: %d nil / %d sentinel)", n0, e0, n1, e1))
+		}
+	}
+	if n == 0 {
+		r.Unk(rule, "-", "presence-test", "-", "no comma-ok lookup of a registry found in a function that returns an error")
+	}
+}
+
+// successOnlyAfterTheEffect: a function of the storage layer that proposes to a raft group or forwards to a peer — directly, by
+// calling a function from which a raft proposal or a client call of the data plane is reachable — returns a nil error only on
+// paths that made such a call. An early `return nil` (the guard for "no raft group on this node", the batch-size limit, a
+// validation) acknowledges a write that was never proposed.
+func successOnlyAfterTheEffect(c *Ctx, r *Report, rule string) {
+	// effect functions: reach Node.Propose / ProposeConfChange, or invoke a method of a generated client interface
+	direct := func(cc *ssa.CallCommon) bool {
+		if !cc.IsInvoke() {
+			return false
+		}
+		tn := typeName(cc.Value.Type())
+		if strings.HasSuffix(tn, "Node") && strings.HasPrefix(cc.Method.Name(), "Propose") {
+			return true
+		}
+		return strings.HasSuffix(tn, "Client") && cc.Method.Pkg() != nil && strings.HasSuffix(cc.Method.Pkg().Path(), "/protobuf")
+	}
+	memo := map[*ssa.Function]int{} // 0 unknown, 1 yes, 2 no, 3 in progress
+	var effect func(g *ssa.Function, d int) bool
+	effect = func(g *ssa.Function, d int) bool {
+		if g == nil || !modLocal(g) || len(g.Blocks) == 0 || d > 5 {
+			return false
+		}
+		switch memo[g] {
+		case 1:
+			return true
+		case 2, 3:
+			return false
+		}
+		memo[g] = 3
+		hit := false
+		eachInstr(g, func(z ssa.Instruction) {
+			if hit {
+				return
+			}
+			if _, isGo := z.(*ssa.Go); isGo {
+				return
+			}
+			if cc := asCall(z); cc != nil {
+				if direct(cc) || effect(cc.StaticCallee(), d+1) {
+					hit = true
+				}
+			}
+		})
+		// closures of g run as part of it when they are called or started in it
+		for _, cl := range closuresOf(g) {
+			if !hit && effect(cl, d+1) {
+				hit = true
+			}
+		}
+		if hit {
+			memo[g] = 1
+		} else {
+			memo[g] = 2
+		}
+		return hit
+	}
+	n := 0
+	for _, f := range prodFuncs(c, "storage") {
+		if f.Parent() != nil {
+			continue
+		}
+		res := f.Signature.Results()
+		if res.Len() == 0 || !isErrorType(res.At(res.Len()-1).Type()) {
+			continue
+		}
+		// only methods of the data plane: Dataset and partition write paths (the catalogue's own proposals have their own rules)
+		recv := f.Signature.Recv()
+		if recv == nil {
+			continue
+		}
+		rn := typeName(derefType(recv.Type()))
+		if rn != "Dataset" && rn != "partition" {
+			continue
+		}
+		isEffect := func(z ssa.Instruction) bool {
+			if _, isGo := z.(*ssa.Go); isGo {
+				if g, _ := z.(*ssa.Go).Call.Value.(*ssa.MakeClosure); g != nil {
+					if fn, _ := g.Fn.(*ssa.Function); fn != nil {
+						return effect(fn, 1)
+					}
+				}
+				return effect(z.(*ssa.Go).Call.StaticCallee(), 1)
+			}
+			cc := asCall(z)
+			if cc == nil {
+				return false
+			}
+			// a worker handed to a fan-out helper
+			for _, a := range cc.Args {
+				if mc, isMC := strip(a).(*ssa.MakeClosure); isMC {
+					if fn, _ := mc.Fn.(*ssa.Function); fn != nil && effect(fn, 1) {
+						return true
+					}
+				}
+				if fn, isFn := strip(a).(*ssa.Function); isFn && effect(fn, 1) {
+					return true // a function literal that captures nothing
+				}
+			}
+			return direct(cc) || effect(cc.StaticCallee(), 1)
+		}
+		has := false
+		eachInstr(f, func(z ssa.Instruction) {
+			if isEffect(z) {
+				has = true
+			}
+		})
+		if !has || !writesThroughRaft(f) {
+			continue
+		}
+		n++
+		resolved := map[*ssa.Return][]ssa.Value{}
+		for _, rt := range returnsOf(f) {
+			resolved[rt.Return] = rt.Results
+		}
+		// the error of every effect call is looked at
+		k := 0
+		eachInstr(f, func(z ssa.Instruction) {
+			cl, isCl := z.(*ssa.Call)
+			if !isCl || !isEffect(z) {
+				return
+			}
+			rs := cl.Call.Signature().Results()
+			if rs.Len() == 0 || !isErrorType(rs.At(rs.Len()-1).Type()) {
+				return
+			}
+			k++
+			used := false
+			if rs.Len() == 1 {
+				used = cl.Referrers() != nil && len(*cl.Referrers()) > 0
+			} else {
+				for _, u := range *cl.Referrers() {
+					if ex, isEx := u.(*ssa.Extract); isEx && ex.Index == rs.Len()-1 && ex.Referrers() != nil && len(*ex.Referrers()) > 0 {
+						used = true
+					}
+					if _, isRet := u.(*ssa.Return); isRet {
+						used = true // `return f(...)`: the whole tuple is forwarded
+					}
+				}
+			}
+			r.Check(used, rule, fnName(f), fmt.Sprintf("effect-error-used#%d", k), c.InstrPos(cl), "the error of the proposing / forwarding call is looked at (returned, tested or passed on), not discarded")
+		})
+		at, early := reachesAvoidingFrom(f, f.Blocks[0].Instrs[0], func(z ssa.Instruction) bool {
+			rt, isR := z.(*ssa.Return)
+			if !isR {
+				return false
+			}
+			rr := resolved[rt]
+			return len(rr) > 0 && isNilConst(rr[len(rr)-1])
+		}, func(z ssa.Instruction) bool { return isEffect(z) || instrNoReturn(z) })
+		where := ""
+		if early && at != nil {
+			where = " (the return at " + c.InstrPos(at) + " is reachable without one)"
+		}
+		r.Check(!early, rule, fnName(f), "success-after-effect", c.Pos(f.Pos()), "every `return …, nil` of this write path lies behind a raft proposal or a forwarded call"+where+": success without the effect acknowledges a write that was never made")
+	}
+	if n == 0 {
+		r.Unk(rule, "storage", "write-paths", "-", "no write path of the data plane found")
+	}
+}
+
+// writesThroughRaft: the method's name-free role — it hands a PartitionChange (or batch items) on: one of its calls takes a
+// protobuf message of the data plane as argument.
+func writesThroughRaft(f *ssa.Function) bool {
+	hit := false
+	eachInstr(f, func(z ssa.Instruction) {
+		cc := asCall(z)
+		if cc == nil {
+			return
+		}
+		for _, a := range cc.Args {
+			tn := typeName(derefType(a.Type()))
+			if tn == "PartitionChange" || strings.HasSuffix(tn, "Request") && strings.Contains(a.Type().String(), "/protobuf.") {
+				hit = true
+			}
+			if sl, ok := a.Type().Underlying().(*types.Slice); ok && typeName(derefType(sl.Elem())) == "BatchItem" {
+				hit = true
+			}
+		}
+	})
+	return hit
+}
+
+// frontierLoopsMakeProgress: a loop that runs while a queue is non-empty takes something out of that queue on every way round
+// (or leaves): otherwise the condition never changes and the goroutine — a search handler, or the apply loop through Insert —
+// spins for ever.
+func frontierLoopsMakeProgress(c *Ctx, r *Report, rule string, pkgs ...string) {
+	n := 0
+	for _, f := range prodFuncs(c, pkgs...) {
+		k := 0
+		for _, ifi := range allIfs(f) {
+			h := ifi.Block()
+			isHdr := false
+			for _, p := range h.Preds {
+				if h.Dominates(p) {
+					isHdr = true
+				}
+			}
+			if !isHdr || len(h.Succs) != 2 {
+				continue
+			}
+			cm, ok := resolveCmp(ifi.Cond, 0)
+			if !ok {
+				if b, isB := ifi.Cond.(*ssa.BinOp); isB && b.Op == token.NEQ {
+					cm, ok = ccmp{b.Op, mkSide(b.X), mkSide(b.Y)}, true
+				}
+			}
+			if !ok {
+				continue
+			}
+			var q ssa.Value
+			op := cm.op
+			var kv int64
+			if cm.x.isLen && !cm.y.isLen {
+				v, isK := constInt(cm.y.v)
+				if !isK {
+					continue
+				}
+				q, kv = cm.x.v, v
+			} else if cm.y.isLen && !cm.x.isLen {
+				v, isK := constInt(cm.x.v)
+				if !isK {
+					continue
+				}
+				q, kv, op = cm.y.v, v, flipCmp(op)
+			} else {
+				continue
+			}
+			if !((op == token.GTR && kv == 0) || (op == token.NEQ && kv == 0) || (op == token.GEQ && kv == 1)) {
+				continue
+			}
+			_, body := naturalLoopOf(h)
+			if body == nil {
+				continue
+			}
+			n++
+			k++
+			pops := func(z ssa.Instruction) bool {
+				cl, isC := z.(*ssa.Call)
+				if !isC {
+					return false
+				}
+				rv, isPop := invokeOn(cl, "Pop")
+				return isPop && sameQueue(rv, q)
+			}
+			var stuck ssa.Instruction
+			seen := map[*ssa.BasicBlock]bool{}
+			var walk func(b *ssa.BasicBlock)
+			walk = func(b *ssa.BasicBlock) {
+				if stuck != nil || seen[b] || !body[b] {
+					return
+				}
+				seen[b] = true
+				for _, z := range b.Instrs {
+					if pops(z) || instrNoReturn(z) {
+						return
+					}
+				}
+				for _, sb := range b.Succs {
+					if sb == h {
+						stuck = b.Instrs[len(b.Instrs)-1]
+						return
+					}
+					walk(sb)
+				}
+			}
+			// the continuing side: the successor inside the body
+			walk(h.Succs[0])
+			where := ""
+			if stuck != nil {
+				where = " (back to the test from " + c.InstrPos(stuck) + " without a Pop)"
+			}
+			r.Check(stuck == nil, rule, fnName(f), fmt.Sprintf("frontier-loop#%d", k), c.InstrPos(ifi), "every way round a loop that runs while a queue is non-empty pops that queue"+where)
+		}
+	}
+	if n == 0 {
+		r.Unk(rule, strings.Join(pkgs, ","), "frontier-loops", "-", "no loop conditioned on a non-empty queue found")
+	}
+}
+
+// validatorAgreesWithWriter: the metadata validator (the method the API layer calls before anything is proposed) refuses
+// everything the snapshot writer refuses: for every length guard in front of an error return in the writer (`entries > 65535`,
+// `key > 255`, `value > 65535`) the validator has a test of the same quantity with the same operator and constant, and from the
+// side of that test on which the guard holds no path reaches `return nil`. What passes the validator is proposed, applied and
+// stored; if the writer then refuses it the partition can never again be snapshotted (and `&&` for `||`, a bound off by one, or a
+// refusal turned into nil all open exactly that gap).
+func validatorAgreesWithWriter(c *Ctx, r *Report, rule string) {
+	md := c.Named("index", "Metadata")
+	if md == nil {
+		r.Unk(rule, "index", "anchors", "-", "index.Metadata not found")
+		return
+	}
+	type guard struct {
+		kind string
+		op   token.Token
+		k    int64
+	}
+	kindOf := func(f *ssa.Function, v ssa.Value) string {
+		v = strip(v)
+		if p, ok := v.(*ssa.Parameter); ok {
+			if namedOf(p.Type()) == md {
+				return "entries"
+			}
+			if b, isB := p.Type().Underlying().(*types.Basic); isB && b.Kind() == types.String {
+				nth := 0
+				for _, q := range f.Params {
+					if qb, isQ := q.Type().Underlying().(*types.Basic); isQ && qb.Kind() == types.String {
+						nth++
+						if q == p {
+							if nth == 1 {
+								return "key"
+							}
+							return "value"
+						}
+					}
+				}
+			}
+		}
+		if ex, ok := v.(*ssa.Extract); ok {
+			if _, isN := ex.Tuple.(*ssa.Next); isN {
+				if ex.Index == 1 {
+					return "key"
+				}
+				if ex.Index == 2 {
+					return "value"
+				}
+			}
+		}
+		return ""
+	}
+	// (guard, polarity) of an If: which quantity against which constant, oriented as `len op k`
+	readIf := func(f *ssa.Function, ifi *ssa.If) (guard, bool) {
+		cond := ifi.Cond
+		neg := false
+		if u, isU := cond.(*ssa.UnOp); isU && u.Op == token.NOT {
+			cond, neg = u.X, true
+		}
+		b, isB := cond.(*ssa.BinOp)
+		if !isB || !(isCmp(b.Op) || b.Op == token.EQL || b.Op == token.NEQ) {
+			return guard{}, false
+		}
+		for _, pr := range [][2]ssa.Value{{b.X, b.Y}, {b.Y, b.X}} {
+			lc, isC := strip(pr[0]).(*ssa.Call)
+			if !isC {
+				continue
+			}
+			if bi, isBi := lc.Call.Value.(*ssa.Builtin); !isBi || bi.Name() != "len" {
+				continue
+			}
+			kv, isK := constInt(pr[1])
+			kd := kindOf(f, lc.Call.Args[0])
+			if !isK || kd == "" {
+				continue
+			}
+			op := b.Op
+			if pr[0] == b.Y {
+				op = flipCmp(op)
+			}
+			if neg {
+				op = negOp(op)
+			}
+			return guard{kd, op, kv}, true
+		}
+		return guard{}, false
+	}
+	var writers []*ssa.Function
+	var validator *ssa.Function
+	for _, f := range prodFuncs(c, "index") {
+		if f.Signature.Recv() == nil || namedOf(derefType(f.Signature.Recv().Type())) != md {
+			continue
+		}
+		takesWriter := false
+		for _, p := range f.Params {
+			if isIOType(p.Type(), "Writer") {
+				takesWriter = true
+			}
+		}
+		rs := f.Signature.Results()
+		if takesWriter {
+			writers = append(writers, f)
+		} else if f.Signature.Params().Len() == 0 && rs.Len() == 1 && isErrorType(rs.At(0).Type()) && f.Object() != nil && f.Object().Exported() {
+			validator = f
+		}
+	}
+	if validator == nil || len(writers) == 0 {
+		r.Unk(rule, "index.Metadata", "validator-and-writer", "-", "the validator or the writer of the metadata type was not found")
+		return
+	}
+	errSide := func(f *ssa.Function, ifi *ssa.If) int {
+		// the side that returns an error at once, looking through the second half of an `||`
+		for sd, sb := range ifi.Block().Succs {
+			if len(sb.Instrs) > 0 {
+				if rt, isR := sb.Instrs[len(sb.Instrs)-1].(*ssa.Return); isR && len(sb.Instrs) <= 3 {
+					if len(rt.Results) > 0 && definitelyAnError(rt.Results[len(rt.Results)-1]) {
+						return sd
+					}
+				}
+			}
+		}
+		return -1
+	}
+	var guards []guard
+	for _, w := range writers {
+		for _, ifi := range allIfs(w) {
+			g, ok := readIf(w, ifi)
+			if !ok {
+				continue
+			}
+			sd := errSide(w, ifi)
+			if sd < 0 {
+				continue
+			}
+			if sd == 1 {
+				g.op = negOp(g.op)
+			}
+			guards = append(guards, g)
+		}
+	}
+	if len(guards) == 0 {
+		r.Unk(rule, "index.Metadata", "writer-guards", "-", "the writer has no length guard in front of an error return")
+		return
+	}
+	for _, g := range guards {
+		key := fmt.Sprintf("validator-covers(%s %s %d)", g.kind, g.op, g.k)
+		found, bad := false, ""
+		for _, ifi := range allIfs(validator) {
+			vg, ok := readIf(validator, ifi)
+			if !ok || vg.kind != g.kind || vg.k != g.k {
+				continue
+			}
+			holdsSide := -1
+			if vg.op == g.op {
+				holdsSide = 0
+			} else if negOp(vg.op) == g.op {
+				holdsSide = 1
+			}
+			if holdsSide < 0 {
+				continue
+			}
+			found = true
+			start := ifi.Block().Succs[holdsSide]
+			if len(start.Instrs) == 0 {
+				continue
+			}
+			isNilRet := func(z ssa.Instruction) bool {
+				rt, isR := z.(*ssa.Return)
+				return isR && len(rt.Results) > 0 && isNilConst(rt.Results[len(rt.Results)-1])
+			}
+			if at, reach := reachesAvoidingFrom(validator, start.Instrs[0], isNilRet, func(ssa.Instruction) bool { return false }); reach {
+				bad = "from the side of the test at " + c.InstrPos(ifi) + " on which the writer's guard holds, `return nil` at " + c.InstrPos(at) + " is reachable"
+			}
+		}
+		switch {
+		case !found:
+			r.Bad(rule, fnName(validator), key, c.Pos(validator.Pos()), fmt.Sprintf("the writer refuses metadata with %s %s %d but the validator has no test of exactly that: what the validator lets through the writer cannot store", g.kind, g.op, g.k))
+		case bad != "":
+			r.Bad(rule, fnName(validator), key, c.Pos(validator.Pos()), "the validator tests the writer's guard but does not refuse: "+bad)
+		default:
+			r.OK(rule, fnName(validator), key, c.Pos(validator.Pos()), "the validator refuses exactly where the writer does")
+		}
+	}
+}
+
+// membershipPredicates: a boolean function that scans a list of node ids and compares its elements with an id answers true on
+// the side where an element *equals* the id, and false when the scan ends. (`isOnNode`, `isPartitionAssignedToNode`: with the
+// comparison inverted every node with two or more replicas "hosts" every partition.)
+func membershipPredicates(c *Ctx, r *Report, rule string, pkgs ...string) {
+	n := 0
+	for _, f := range prodFuncs(c, pkgs...) {
+		rs := f.Signature.Results()
+		if rs.Len() != 1 || f.Parent() != nil {
+			continue
+		}
+		if bt, ok := rs.At(0).Type().Underlying().(*types.Basic); !ok || bt.Kind() != types.Bool {
+			continue
+		}
+		k := 0
+		for _, ifi := range allIfs(f) {
+			b, isB := ifi.Cond.(*ssa.BinOp)
+			if !isB || (b.Op != token.EQL && b.Op != token.NEQ) || len(ifi.Block().Succs) != 2 || !inCycle(f, ifi) {
+				continue
+			}
+			isU64 := func(v ssa.Value) bool {
+				bt, ok := v.Type().Underlying().(*types.Basic)
+				return ok && bt.Kind() == types.Uint64
+			}
+			if !isU64(b.X) || !isU64(b.Y) {
+				continue
+			}
+			// one operand is an element of a []uint64 indexed by the loop
+			isElem := func(v ssa.Value) bool {
+				if l, ok := loadOf(strip(v)); ok {
+					if ia, isI := l.(*ssa.IndexAddr); isI {
+						if sl, isS := ia.X.Type().Underlying().(*types.Slice); isS {
+							if eb, isE := sl.Elem().Underlying().(*types.Basic); isE && eb.Kind() == types.Uint64 {
+								return true
+							}
+						}
+					}
+				}
+				return false
+			}
+			if !isElem(b.X) && !isElem(b.Y) {
+				continue
+			}
+			n++
+			k++
+			eqSide := succOn(ifi, b.Op == token.EQL)
+			neSide := succOn(ifi, b.Op != token.EQL)
+			retConst := func(bb *ssa.BasicBlock) (bool, bool) {
+				if len(bb.Instrs) == 0 {
+					return false, false
+				}
+				rt, isR := bb.Instrs[len(bb.Instrs)-1].(*ssa.Return)
+				if !isR || len(rt.Results) != 1 {
+					return false, false
+				}
+				cst, isC := rt.Results[0].(*ssa.Const)
+				if !isC || cst.Value == nil {
+					return false, false
+				}
+				return cst.Value.String() == "true", true
+			}
+			ev, eok := retConst(eqSide)
+			nv, nok := retConst(neSide)
+			bad := (eok && !ev) || (nok && nv)
+			r.Check(!bad, rule, fnName(f), fmt.Sprintf("membership-test#%d", k), c.InstrPos(ifi), "the scan of a node-id list answers true where an element equals the id it looks for (not where it differs)")
+		}
+	}
+	if n == 0 {
+		r.Unk(rule, strings.Join(pkgs, ","), "membership-tests", "-", "no boolean scan of a node-id list found")
+	}
+}
+
+// applyFunctionsAlwaysNotify: a function of the storage layer that reports an outcome through the notificator under an id it was
+// handed (an apply function) does so on every path that returns nil: the proposer is waiting for exactly one message, and a path
+// without one turns an applied change into a timeout.
+func applyFunctionsAlwaysNotify(c *Ctx, r *Report, rule string) {
+	n := 0
+	for _, f := range prodFuncs(c, "storage") {
+		if f.Parent() != nil {
+			continue
+		}
+		rs := f.Signature.Results()
+		if rs.Len() != 1 || !isErrorType(rs.At(0).Type()) {
+			continue
+		}
+		// the id parameter: a uuid-typed parameter
+		var idp *ssa.Parameter
+		for _, p := range f.Params {
+			if typeName(p.Type()) == "UUID" {
+				idp = p
+				break
+			}
+		}
+		if idp == nil {
+			continue
+		}
+		resolved := map[*ssa.Return][]ssa.Value{}
+		for _, rt := range returnsOf(f) {
+			resolved[rt.Return] = rt.Results
+		}
+		isNotify := func(z ssa.Instruction) bool {
+			cc := asCall(z)
+			if cc == nil {
+				return false
+			}
+			g := cc.StaticCallee()
+			if g == nil || g.Name() != "Notify" || recvTypeName(g) != "Notificator" {
+				if !(cc.IsInvoke() && cc.Method.Name() == "Notify") {
+					return false
+				}
+			}
+			for _, a := range cc.Args {
+				if through(a) == ssa.Value(idp) {
+					return true
+				}
+			}
+			return false
+		}
+		has := false
+		eachInstr(f, func(z ssa.Instruction) {
+			if isNotify(z) {
+				has = true
+			}
+		})
+		// an apply function by role even if it has stopped notifying: it is handed the id a dispatcher parsed from a log entry
+		if !has && !handedParsedNotificationId(c, f, idp) {
+			continue
+		}
+		n++
+		at, silent := reachesAvoidingFrom(f, f.Blocks[0].Instrs[0], func(z ssa.Instruction) bool {
+			rt, isR := z.(*ssa.Return)
+			if !isR {
+				return false
+			}
+			rr := resolved[rt]
+			return len(rr) == 1 && isNilConst(rr[0])
+		}, func(z ssa.Instruction) bool { return isNotify(z) || instrNoReturn(z) })
+		where := ""
+		if silent && at != nil {
+			where = " (the return at " + c.InstrPos(at) + " is reachable without one)"
+		}
+		r.Check(!silent, rule, fnName(f), "always-notifies", c.Pos(f.Pos()), "every `return nil` of this apply function lies behind a Notify under the id it was handed"+where)
+	}
+	if n == 0 {
+		r.Unk(rule, "storage", "apply-functions", "-", "no function notifying under a handed id found")
+	}
+}
+
+// handedParsedNotificationId: some call site of f passes, for parameter p, a uuid parsed from a message's notification id.
+func handedParsedNotificationId(c *Ctx, f *ssa.Function, p *ssa.Parameter) bool {
+	pi := -1
+	for k, q := range f.Params {
+		if q == p {
+			pi = k
+		}
+	}
+	hit := false
+	for _, g := range prodFuncs(c, "storage") {
+		eachInstr(g, func(z ssa.Instruction) {
+			cc := asCall(z)
+			if cc == nil || cc.StaticCallee() != f || pi >= len(cc.Args) {
+				return
+			}
+			v := through(cc.Args[pi])
+			if ex, ok := v.(*ssa.Extract); ok {
+				if cl, isC := ex.Tuple.(*ssa.Call); isC && callID(&cl.Call).Name == "FromBytes" && len(cl.Call.Args) == 1 {
+					if gc, isG := strip(cl.Call.Args[0]).(*ssa.Call); isG && strings.Contains(callID(&gc.Call).Name, "NotificationId") {
+						hit = true
+					}
+				}
+			}
+		})
+	}
+	return hit
+}
+
+// waitGroupProtocol: in a function that fans work out to goroutines and collects through a channel — (a) every `go` of a
+// function that calls Done on a WaitGroup is preceded, on every path from the function's entry, by an Add on it; (b) every such
+// goroutine function calls Done on every path to its return (deferred); (c) a goroutine that closes a channel waits for the
+// group first. Without (a) Wait can return early or Done panics on a negative counter; without (b) the closer never runs; without
+// (c) a worker sends on a closed channel.
+func waitGroupProtocol(c *Ctx, r *Report, rule string, pkgs ...string) {
+	isWG := func(v ssa.Value) bool { return typeName(derefType(v.Type())) == "WaitGroup" }
+	wgOp := func(z ssa.Instruction, name string) bool {
+		var cc *ssa.CallCommon
+		switch x := z.(type) {
+		case *ssa.Call:
+			cc = &x.Call
+		case *ssa.Defer:
+			cc = &x.Call
+		}
+		if cc == nil {
+			return false
+		}
+		id := callID(cc)
+		return id.Pkg == "sync" && id.Recv == "WaitGroup" && id.Name == name
+	}
+	callsOp := func(g *ssa.Function, name string) bool {
+		hit := false
+		if g == nil {
+			return false
+		}
+		eachInstr(g, func(z ssa.Instruction) {
+			if wgOp(z, name) {
+				hit = true
+			}
+		})
+		return hit
+	}
+	goFn := func(g *ssa.Go) *ssa.Function {
+		if mc, ok := g.Call.Value.(*ssa.MakeClosure); ok {
+			fn, _ := mc.Fn.(*ssa.Function)
+			return fn
+		}
+		return g.Call.StaticCallee()
+	}
+	n := 0
+	for _, f := range prodFuncs(c, pkgs...) {
+		k := 0
+		hasCloser, hasWorker := false, false
+		eachInstr(f, func(i ssa.Instruction) {
+			g, ok := i.(*ssa.Go)
+			if !ok {
+				return
+			}
+			fn := goFn(g)
+			if fn == nil || len(fn.Blocks) == 0 {
+				return
+			}
+			usesWG := false
+			closes := false
+			eachInstr(fn, func(z ssa.Instruction) {
+				if cc := asCall(z); cc != nil {
+					if bi, isB := cc.Value.(*ssa.Builtin); isB && bi.Name() == "close" {
+						closes = true
+					}
+				}
+			})
+			for _, a := range g.Call.Args {
+				if isWG(a) {
+					usesWG = true
+				}
+			}
+			if mc, isMC := g.Call.Value.(*ssa.MakeClosure); isMC {
+				for _, bv := range mc.Bindings {
+					if isWG(bv) || (bv.Type().String() == "**sync.WaitGroup") {
+						usesWG = true
+					}
+				}
+			}
+			if !usesWG && !(closes && callsOp(f, "Add")) {
+				return
+			}
+			n++
+			k++
+			if closes || callsOp(fn, "Wait") {
+				hasCloser = hasCloser || (closes && callsOp(fn, "Wait"))
+				// the closer: every close of a channel in it comes after the Wait
+				_, early := reachesAvoidingFrom(fn, fn.Blocks[0].Instrs[0], func(z ssa.Instruction) bool {
+					cc := asCall(z)
+					if cc == nil {
+						return false
+					}
+					bi, isB := cc.Value.(*ssa.Builtin)
+					return isB && bi.Name() == "close"
+				}, func(z ssa.Instruction) bool { return wgOp(z, "Wait") })
+				r.Check(!early, rule, fnName(f), fmt.Sprintf("closer-waits#%d", k), c.InstrPos(g), "the goroutine that closes the result channel waits for the group first")
+				return
+			}
+			// a worker: registered before it is started, and it signs off
+			hasWorker = true
+			_, unregistered := reachesAvoidingFrom(f, f.Blocks[0].Instrs[0], func(z ssa.Instruction) bool { return z == ssa.Instruction(g) }, func(z ssa.Instruction) bool { return wgOp(z, "Add") })
+			// inside a loop the Add has to be in the same iteration: from the go statement round to itself without an Add
+			if !unregistered && inCycle(f, g) {
+				if _, again := reachesAvoiding(f, g, func(z ssa.Instruction) bool { return z == ssa.Instruction(g) }, func(z ssa.Instruction) bool { return wgOp(z, "Add") }); again {
+					unregistered = true
+				}
+			}
+			r.Check(!unregistered, rule, fnName(f), fmt.Sprintf("worker-registered#%d", k), c.InstrPos(g), "every start of a worker that is handed the WaitGroup is preceded by an Add (in the same iteration)")
+			_, unsigned := reachesAvoidingFrom(fn, fn.Blocks[0].Instrs[0], func(z ssa.Instruction) bool { _, isR := z.(*ssa.Return); return isR }, func(z ssa.Instruction) bool { return wgOp(z, "Done") || instrNoReturn(z) })
+			r.Check(!unsigned, rule, fnName(f), fmt.Sprintf("worker-signs-off#%d", k), c.InstrPos(g), "the worker calls Done (deferred or on every path) before it returns")
+		})
+		// a function that starts registered workers also starts a closer (or waits itself)
+		_, _ = hasCloser, hasWorker // (whether a closer is needed depends on how the collector counts: not judged)
+	}
+	if n == 0 {
+		r.Unk(rule, strings.Join(pkgs, ","), "fan-outs", "-", "no goroutine handed a WaitGroup found")
 	}
 }
